@@ -236,6 +236,9 @@ Section RelM.
   Proof. induction fuel as [|f IH]; intros n first; cbn [r6rs_char_hex_loop]; sat_auto'. Qed.
   Lemma sat_char_name_loop fuel : forall scratch, sat (char_name_loop fuel scratch).
   Proof. induction fuel as [|f IH]; intros scratch; cbn [char_name_loop]; sat_auto'. Qed.
+  Lemma sat_open_ended_char n : sat (open_ended_char n).
+  Proof. unfold open_ended_char. sat_auto'. Qed.
+  Hint Resolve sat_open_ended_char : sat.
   Lemma sat_parse_r6rs_char fuel : sat (parse_r6rs_char fuel).
   Proof. pose proof sat_r6rs_char_hex_loop. pose proof sat_char_name_loop. unfold parse_r6rs_char. sat_auto'. Qed.
   Hint Resolve sat_parse_r6rs_char : sat.
